@@ -394,11 +394,16 @@ impl ThreadPool {
         let job = Box::new(f);
         #[cfg(varlink_rust_verif)]
         crate::verif::probe(crate::verif::Point::ExecBeforeSend);
+        // a job counts as busy from the moment it is queued, so that the growth decision
+        // below does not depend on how far the workers have got with earlier jobs
+        {
+            let mut num_busy = self.num_busy.write().unwrap();
+            *num_busy += 1;
+        }
         self.sender.send(Message::NewJob(job)).unwrap();
         #[cfg(varlink_rust_verif)]
         crate::verif::probe(crate::verif::Point::ExecBeforeBusyRead);
-        if ((self.num_busy() + 1) >= self.workers.len()) && (self.workers.len() < self.max_workers)
-        {
+        if (self.num_busy() > self.workers.len()) && (self.workers.len() < self.max_workers) {
             self.workers.push(Worker::new(
                 Arc::clone(&self.receiver),
                 Arc::clone(&self.num_busy),
@@ -447,10 +452,6 @@ impl Worker {
                 Message::NewJob(job) => {
                     #[cfg(varlink_rust_verif)]
                     crate::verif::probe(crate::verif::Point::WorkerDequeued);
-                    {
-                        let mut num_busy = num_busy.write().unwrap();
-                        *num_busy += 1;
-                    }
                     #[cfg(varlink_rust_verif)]
                     crate::verif::probe(crate::verif::Point::WorkerBusyInc);
                     job.call_box();
